@@ -142,4 +142,5 @@ class Canon:
 
 
 def parse_expr(src):
-    return ast.parse(src, mode='eval').body
+    from .spelling import parse
+    return parse(src, mode='eval').body
